@@ -16,7 +16,7 @@ def match(off, ln, msg='msg'):
             'replacements': [{'value': v} for v in spec.get('suggestions', ['x'])],
             'rule': {'id': spec.get('rule', 'RULE'), 'subId': '1', 'category': {'name': 'Cat'}, 'urls': [{'value': 'http://example.invalid/r'}]}}
 if 'raw' in spec:
-    sys.stdout.write(spec['raw'])
+    sys.stdout.buffer.write(spec['raw'].encode('utf-8', 'surrogatepass'))
     sys.exit(0)
 ms = []
 for w in spec.get('flag_words', []):
@@ -58,7 +58,9 @@ def mutate(root, mu):
     return root
 for mu in spec.get('mutations', []):
     ans = mutate(ans, mu)
-out = json.dumps(ans, ensure_ascii=spec.get('ascii', True))
+out = json.dumps(ans, ensure_ascii=spec.get('ascii', True)).encode('utf-8', 'surrogatepass')
 if 'truncate' in spec:
-    out = out[:int(len(out) * spec['truncate'])]
-sys.stdout.write(out)
+    out = out[:int(len(out) * spec['truncate'])]        # byte truncation: may cut a multi-byte character
+if 'truncate_bytes' in spec:
+    out = out[:spec['truncate_bytes']]
+sys.stdout.buffer.write(out)
